@@ -245,6 +245,39 @@ fn second_attempts(prior: PortSettings, fk: usize, rep: &mut Report) {
     }
 }
 
+/// Ports whose present framing the settings enums cannot name (1.5 stop bits, mark parity, 9 data bits — a Windows DCB or a
+/// pseudo-terminal can be in such a state): the getters for character size, parity and stop bits answer `None` until
+/// something has been set. The port still ends up at 19200 8N1.
+fn ports_with_unnameable_framing(prior: PortSettings, rep: &mut Report) {
+    for entry in 0..3usize {
+        let sig = format!("unnameable-framing|{:?}|{}", prior, entry);
+        rep.case(Some(fnv(sig.as_bytes())));
+        let st = doubles::shared(prior);
+        st.borrow_mut().opaque_framing = true;
+        let port = InstrPort::scripted(st.clone(), FragReader::plain(vec![]), FragWriter::new(vec![], WriteAct::Accept(usize::MAX)));
+        let r = catch(|| match entry {
+            0 => {
+                let mut p = port;
+                flipdot_serial::configure_port(&mut p, Duration::from_millis(250)).map_err(|e| e.to_string())
+            }
+            1 => SerialSignBus::try_new(port).map(|_| ()).map_err(|e| e.to_string()),
+            _ => Odk::try_new(port, VirtualSignBus::new(vec![])).map(|_| ()).map_err(|e| e.to_string()),
+        });
+        let s = st.borrow();
+        let what = match r {
+            Err(p) => Some(format!("panic {} at {}", p.msg, short_loc(&p.loc))),
+            Ok(Err(e)) => Some(format!("failed ({}) although the port refuses nothing", e)),
+            Ok(Ok(())) if s.settings != TARGET => Some(format!("Ok but the port is at {:?}", s.settings)),
+            Ok(Ok(())) if s.timeout.is_none() => Some("Ok but no read timeout was applied".to_string()),
+            Ok(Ok(())) => None,
+        };
+        match what {
+            None => rep.count("setups_of_ports_with_unnameable_framing_ok"),
+            Some(w) => rep.violation(MON, "wrong_final_settings", &sig, format!("{} on a port at {:?} whose framing getters answer None until something is set: {}", ["configure_port", "SerialSignBus::try_new", "Odk::try_new"][entry], prior, w), J::obj(vec![("workload", J::s("unnameable framing")), ("prior", J::s(format!("{:?}", prior))), ("observed", J::s(w.clone()))])),
+        }
+    }
+}
+
 /// Ports that implement `SerialPort` themselves and call the setup more than once (a rehearsal on scratch settings, then
 /// the live run): the last call counts, and the port ends up at 19200 8N1 like any other.
 fn careful_ports(prior: PortSettings, rep: &mut Report) {
@@ -476,6 +509,7 @@ pub fn run(ctx: &Ctx) -> Outcome {
             }
         }
         careful_ports(prior, rep);
+        ports_with_unnameable_framing(prior, rep);
         if i == 1 {
             concurrent_setups(if ctx.quick() { 45 } else { 600 }, rep);
         }
@@ -490,6 +524,7 @@ pub fn run(ctx: &Ctx) -> Outcome {
         floor("a failed setup followed by a second attempt (same port three ways, another port) once the cause is gone", report.get("second_attempts_ok") >= 135 * 16, report.get("second_attempts_ok")),
         floor("prior rates at the ends of usize and around 2^8 .. 2^63", report.get("extreme_prior_rates") == 64, report.get("extreme_prior_rates")),
         floor("ports that implement SerialPort themselves and rehearse the setup on scratch settings before applying it (all 1080 priors x 1 or 2 rehearsals x 3 entry points)", report.get("careful_port_setups_ok") == 1080 * 6, report.get("careful_port_setups_ok")),
+        floor("ports whose framing getters answer None until something is set (all 1080 priors x 3 entry points)", report.get("setups_of_ports_with_unnameable_framing_ok") == 1080 * 3, report.get("setups_of_ports_with_unnameable_framing_ok")),
         floor("two to four ports set up at the same time on threads of their own, one of them slow to apply settings", report.get("concurrent_setups_ok") >= 100, report.get("concurrent_setups_ok")),
         floor("every error kind (7, incl. Interrupted) at every fault point (4)", report.set_len("fault_kind_x_point") == 28, report.set_len("fault_kind_x_point")),
     ];
